@@ -970,7 +970,9 @@ func TestVerif_C17_Sim(t *testing.T) {
 	r.Bounds["rt_sets"] = fmt.Sprint(c17RTSetNames)
 	r.Bounds["memberships"] = "RT1|RT2|default x origin AS a; RT1 x origin AS b (full alphabet: also RT2 x b, spurious withdrawals, all 5 target sets for both prefixes)"
 	r.Bounds["vrfs"] = "v1 import{RT1} export{RT1} (fixed, CE attached); v2 import{RT1,RT2} export{RT2} (added/deleted)"
-	r.Bounds["runs"] = fmt.Sprint(runs)
+	for _, x := range runs {
+		r.Bounds["vrf["+x.arg+"].limits"] = fmt.Sprintf("depth<=%d, wall budget %s (tested between levels), level size<=%d transitions", x.depth, x.budget, x.maxLevel)
+	}
 	for _, x := range runs {
 		simExplore(t, r, simExploreCfg{Scenario: "vrf", Arg: x.arg, Depth: x.depth, Budget: x.budget, MaxLevel: x.maxLevel})
 	}
